@@ -904,6 +904,9 @@ func runTextView(c *mon.Case) {
 	if r.Intn(4) == 0 {
 		n = r.Intn(3)
 	}
+	if r.Intn(8) == 0 {
+		n = 0 // a view without lines
+	}
 	lines := make([]string, n)
 	for i := range lines {
 		lines[i] = wLine(r, 16, ctl)
@@ -1134,7 +1137,7 @@ func Spec() *mon.Spec {
 			{Name: "listbox-vertical", Quick: 400, Thorough: 8000, Run: runListBox(false)},
 			{Name: "listbox-horizontal", Quick: 250, Thorough: 5000, Run: runListBox(true)},
 			{Name: "codearea", Quick: 300, Thorough: 6000, Run: runCodeArea},
-			{Name: "textview", Quick: 120, Thorough: 2500, Run: runTextView},
+			{Name: "textview", Quick: 200, Thorough: 4000, Run: runTextView},
 			{Name: "label", Quick: 60, Thorough: 1200, Run: runLabel},
 			{Name: "combobox", Quick: 200, Thorough: 4000, Run: runComboBox},
 			{Name: "colview", Quick: 200, Thorough: 4000, Run: runColView},
@@ -1147,7 +1150,7 @@ func Spec() *mon.Spec {
 			"renders_listbox-horizontal": 35000, "renders_listbox-vertical": 60000, "renders_textview": 18000,
 			"full_height_listbox-vertical": 20000, "full_height_listbox-horizontal": 10000, "full_height_codearea": 12000, "full_height_textview": 8000,
 			"lists_with_multiline_items": 50, "lists_with_padding": 60, "codearea_with_pending": 15, "codearea_with_tips": 20,
-			"codearea_multiline_buffers": 40, "codearea_dot_moves": 5000, "textview_scrolls": 2000,
+			"codearea_multiline_buffers": 35, "codearea_dot_moves": 5000, "textview_scrolls": 2000, "textviews_empty_scrolled": 7,
 		},
 	}
 }
